@@ -8,11 +8,16 @@ Ops (one per line, `k=v` arguments; lists `A|B`, `-` empty; coins `5stake,3xcoin
   deposit who= id= amt=     vote id= opt=yes|no|veto|abstain     cancel who= id=
   block dt=                 params sanc= unsanc=
   send from= to= amt=       msend from= to=A|B amt=     delegate who= amt=    tomod who= amt=
+  xsend via= from= to= amt= (the same MsgSend executed on the account's behalf by `via` through authz)
   msg m=s:A|B               fund who= amt=
   q                         -> canonical dump (see `dump`)
+  tkey addr=<hex> id=       ikey addr=<hex> id=      skey addr=<hex>     -> key bytes (hex)
+  tcmp addr=<hex> a= b=     -> bytes.Compare of two temporary keys of one address (-1|0|1)
+  tpre addr=<hex> other=<hex> id=  -> 1 iff the address prefix of `addr` is a prefix of the key of `other`
 The verdict is the property evaluated on the *implementation's* dumps along the history.
 -/
 import PvModel.SancSpec
+import PvModel.SancKeys
 -- registry: sanc PvModel.Sanc.driver
 
 namespace PvModel.Sanc
@@ -56,6 +61,7 @@ def parseOp (ws : List String) : Option Op :=
   | "block" :: r => do pure (.block (← kvNat r "dt"))
   | "params" :: r => do pure (.params (← kvCoins r "sanc") (← kvCoins r "unsanc"))
   | "send" :: r => do pure (.send (parseAddr (kvD r "from")) (parseAddr (kvD r "to")) (← kvCoins r "amt"))
+  | "xsend" :: r => do pure (.send (parseAddr (kvD r "from")) (parseAddr (kvD r "to")) (← kvCoins r "amt"))
   | "msend" :: r => do
     pure (.msend (parseAddr (kvD r "from")) ((splitList (kvD r "to")).map parseAddr) (← kvCoins r "amt"))
   | "delegate" :: r => do pure (.delegate (parseAddr (kvD r "who")) (← kvCoins r "amt"))
@@ -149,6 +155,38 @@ def parseObs (impl : String) : Option Obs := do
     | _ => none
   pure { san, perm, temp, idx, props, next, bal }
 
+/-! ### key-layout ops (stateless): model output and verdict -/
+
+open SancKeys in
+def runKey (ws : List String) : Option String :=
+  match ws with
+  | "tkey" :: r => do pure (toHex (temporaryKey (← fromHex (kvD r "addr")) (← kvNat r "id")))
+  | "ikey" :: r => do pure (toHex (proposalTempIndexKey (← kvNat r "id") (← fromHex (kvD r "addr"))))
+  | "skey" :: r => do pure (toHex (sanctionedAddrKey (← fromHex (kvD r "addr"))))
+  | "tcmp" :: r => do
+    let a ← fromHex (kvD r "addr")
+    let x := temporaryKey a (← kvNat r "a")
+    let y := temporaryKey a (← kvNat r "b")
+    pure (if lexLt x y then "-1" else if lexLt y x then "1" else "0")
+  | "tpre" :: r => do
+    let a ← fromHex (kvD r "addr")
+    let o ← fromHex (kvD r "other")
+    pure (boolStr ((temporaryAddrPrefix a).isPrefixOf (temporaryKey o (← kvNat r "id"))))
+  | _ => none
+
+/-- the key-layout theorems' conclusions on the implementation's answer -/
+def checkKey (ws : List String) (impl : String) : String :=
+  match ws with
+  | "tcmp" :: r =>
+    match kvNat r "a", kvNat r "b" with
+    | some a, some b =>
+      let want := if a < b then "-1" else if b < a then "1" else "0"
+      if impl = want then "ok" else "fail:key_order_is_id_order"
+    | _, _ => "-"
+  | "tpre" :: r =>
+    if impl = boolStr (kvD r "addr" == kvD r "other") then "ok" else "fail:addr_prefix_selects_other_address"
+  | _ => "-"
+
 structure DState where
   s : State := {}
   obs : Option Obs := none
@@ -230,6 +268,9 @@ def stepLine (d : DState) (line : String) (impl : Option String) : DState × Str
       | none => (d, out, "fail:unparsed")
       | some o => let (v, d') := checkDump d.s.cfg d o; (d', out, v)
   | _ =>
+    match runKey ws with
+    | some out => (d, out, match impl with | some i => checkKey ws i | none => "-")
+    | none =>
     match parseOp ws with
     | none => (d, "bad-op", "-")
     | some op =>
